@@ -73,7 +73,20 @@ class Module(object):
     def _parse(self, text):
         cur = None
         blk = None
-        for line in text.split("\n"):
+        lines = []
+        pending = None
+        for line in text.split("\n"):     # join multi-line switch instructions
+            if pending is not None:
+                pending += " " + line.strip()
+                if line.strip().startswith("]"):
+                    lines.append(pending)
+                    pending = None
+                continue
+            if line.lstrip().startswith("switch ") and line.rstrip().endswith("["):
+                pending = line.rstrip()
+                continue
+            lines.append(line)
+        for line in lines:
             if cur is None:
                 m = re.match(r"(%[\w.]+) = type (.*)$", line)
                 if m:
